@@ -16,7 +16,11 @@
 from warnings import warn
 import unified_planning as up
 from unified_planning.model.expression import ConstantExpression
-from unified_planning.exceptions import UPProblemDefinitionError, UPValueError
+from unified_planning.exceptions import (
+    UPProblemDefinitionError,
+    UPTypeError,
+    UPValueError,
+)
 from typing import Optional, List, Dict, Union, Iterable, Set
 
 
@@ -46,9 +50,24 @@ class FluentsSetMixin:
         self._initial_defaults: Dict["up.model.types.Type", "up.model.fnode.FNode"] = {}
         for k, v in initial_defaults.items():
             (v_exp,) = self.environment.expression_manager.auto_promote(v)
+            self._check_default_value(k, v_exp, f"type {k}")
             self._initial_defaults[k] = v_exp
         # The field initial default optionally associates a type to a default value. When a new fluent is
         # created with no explicit default, it will be associated with the initial-default of his type, if any.
+
+    @staticmethod
+    def _check_default_value(
+        target_type: "up.model.types.Type", value: "up.model.fnode.FNode", what: str
+    ):
+        """Default initial values must be constants of a type compatible with their target."""
+        if not value.is_constant():
+            raise UPTypeError(
+                f"The default initial value of {what} must be a constant: {value} is not."
+            )
+        if not target_type.is_compatible(value.type):
+            raise UPTypeError(
+                f"The default initial value {value} of {what} has not a compatible type: {value.type}."
+            )
 
     @property
     def environment(self) -> "up.environment.Environment":
@@ -144,11 +163,15 @@ class FluentsSetMixin:
                 raise UPProblemDefinitionError(msg)
             else:
                 warn(msg)
-        self._fluents.append(fluent)
+        v_exp = None
         if not default_initial_value is None:
             (v_exp,) = self.environment.expression_manager.auto_promote(
                 default_initial_value
             )
+            # checked before the fluent is added, so that a rejected call leaves the problem unchanged
+            self._check_default_value(fluent.type, v_exp, f"fluent {fluent.name}")
+        self._fluents.append(fluent)
+        if v_exp is not None:
             self._fluents_defaults[fluent] = v_exp
         elif fluent.type in self._initial_defaults:
             self._fluents_defaults[fluent] = self._initial_defaults[fluent.type]
